@@ -214,6 +214,20 @@ def run(tier, seed, replay):
                                                               "r": {"rows": shape[0], "cols": shape[1], "fortran": rf, "data": buf(Rd, rf)}, "scale": [int(sc.real), int(sc.imag)]}))
                 res_ = iadd(Ld, Rd, sc)
                 expect.append(("buffer", buf(res_, lf), res_.to_array()))
+        # matmul_csr_dense_dense into `out`: CSR with unsorted rows, right and out in every combination of memory orders
+        mcd = importlib.import_module("qutip.core.data.matmul").matmul_csr_dense_dense
+        rgt = pattern(rng, (shape[1], int(rng.integers(1, 4))), "full")
+        outb = pattern(rng, (shape[0], rgt.shape[1]), "full")
+        for rf in (False, True):
+            for of_ in (False, True):
+                Rd = _data.Dense(np.array(rgt, order="F" if rf else "C"), copy=False)
+                Od = _data.Dense(np.array(outb, order="F" if of_ else "C"), copy=False)
+                lines.append("C01.matmul_csr_dense " + json.dumps({"a": ja, "b": {"rows": rgt.shape[0], "cols": rgt.shape[1], "fortran": rf, "data": buf(Rd, rf)},
+                                                                    "out": {"rows": outb.shape[0], "cols": outb.shape[1], "fortran": of_, "data": buf(Od, of_)}, "scale": [int(sc.real), int(sc.imag)]}))
+                with warnings.catch_warnings():
+                    warnings.simplefilter("ignore")
+                    res_ = mcd(U, Rd, sc, Od)
+                expect.append(("buffer", buf(res_, of_), res_.to_array()))
         for cj in (False, True):
             lines.append("C01.transpose_dia " + json.dumps({"a": dia_json(DL), "conj": cj}))
             tr_ = _data.adjoint_dia(DL) if cj else _data.transpose_dia(DL)
